@@ -434,7 +434,265 @@ struct PairEngine {
     }
 };
 
+
+// ---- L4: histories on a real object -------------------------------------------------------------------------------
+// Every state of this layer is reached by replaying its event history on a freshly constructed timer (nothing is loaded
+// into fields), so whatever the object remembers beyond its public fields is the product of a real history.  Nodes are
+// merged only when the public fields AND a behavioural probe (reported horizon, one cycle, one small fast-forward, a
+// restart) agree; at every node the statement's model is compared and Skip(k) is compared with k cycles for every k up to
+// the reported horizon - each on its own replay of the history.
+struct HistoryEngine {
+    Result& res;
+    std::unordered_set<u64> digests;
+    int irq = 0;
+    struct Rig {
+        Teakra::CoreTiming ct;
+        Teakra::Timer t{ct};
+    };
+    struct Node {
+        TS vis, model;
+        int parent;
+        Event ev;
+        int depth;
+    };
+    std::vector<Node> nodes;
+    explicit HistoryEngine(Result& r) : res(r) {}
+
+    static void Apply(Teakra::Timer& t, const Event& e) {
+        switch (e.kind) {
+        case EvTick: t.Tick(); break;
+        case EvEvent: t.TickEvent(); break;
+        case EvRestart: t.Restart(); break;
+        case EvMode: t.count_mode = static_cast<Teakra::Timer::CountMode>(e.arg); break;
+        case EvPause: t.pause = (u16)e.arg; break;
+        case EvMU: t.update_mmio = (u16)e.arg; break;
+        case EvStartLow: t.start_low = (u16)e.arg; break;
+        case EvStartHigh: t.start_high = (u16)e.arg; break;
+        case EvSkip: t.Skip(e.arg); break;
+        }
+    }
+    static int ApplyModel(TS& m, const Event& e) {
+        switch (e.kind) {
+        case EvTick: return Ref::Tick(m);
+        case EvEvent: return Ref::Event(m);
+        case EvRestart: Ref::Restart(m); return 0;
+        case EvMode: m.mode = (u16)e.arg; return 0;
+        case EvPause: m.pause = (u16)e.arg; return 0;
+        case EvMU: m.mu = (u16)e.arg; return 0;
+        case EvStartLow: m.sl = (u16)e.arg; return 0;
+        case EvStartHigh: m.sh = (u16)e.arg; return 0;
+        default: return 0;
+        }
+    }
+    std::vector<Event> Path(int n, const Event* last = nullptr) const {
+        std::vector<Event> p;
+        for (int i = n; i > 0; i = nodes[i].parent)
+            p.push_back(nodes[i].ev);
+        std::reverse(p.begin(), p.end());
+        if (last)
+            p.push_back(*last);
+        return p;
+    }
+    std::unique_ptr<Rig> Build(const std::vector<Event>& path) {
+        auto rig = std::make_unique<Rig>();
+        rig->t.SetInterruptHandler([this]() { ++irq; });
+        rig->t.Reset();
+        for (auto& e : path)
+            Apply(rig->t, e);
+        irq = 0;
+        return rig;
+    }
+    static std::string PathStr(const std::vector<Event>& p) {
+        std::string s = "c15h";
+        for (auto& e : p)
+            s += Fmt(" %d,%llu", e.kind, (unsigned long long)e.arg);
+        return s;
+    }
+    static std::string PathShow(const std::vector<Event>& p) {
+        std::string s;
+        for (auto& e : p)
+            s += (s.empty() ? "" : " ; ") + Show(e);
+        return s;
+    }
+    // checks at the end of `path`: model agreement of the last event (given the parent's model) and the fast-forward differential.
+    // Returns the probe signature of the state reached.
+    u64 CheckAt(const std::vector<Event>& path, const TS& parent_model, TS& vis_out, TS& model_out) {
+        std::vector<Event> pre(path.begin(), path.end() - (path.empty() ? 0 : 1));
+        TS model = parent_model;
+        int model_irq = 0;
+        auto rig = Build(pre);
+        try {
+            if (!path.empty()) {
+                irq = 0;
+                Apply(rig->t, path.back());
+                model_irq = ApplyModel(model, path.back());
+            }
+        } catch (const Teakra::VerifAssertion&) {
+            vis_out = Save(rig->t), model_out = model;
+            return ~0ull; // a deliberate assertion (restart with an undefined mode etc.): not expanded
+        }
+        int got_irq = irq;
+        TS vis = Save(rig->t);
+        vis_out = vis, model_out = model;
+        ++res.transitions, ++res.traces_validated, ++res.evaluations;
+        if (!(vis == model) || got_irq != model_irq)
+            res.AddViolation("c15:history:model:" + (path.empty() ? std::string("reset") : Show(path.back())),
+                             Fmt("after [%s]: implementation %s irq=%d, statement model %s irq=%d", PathShow(path).c_str(), Show(vis).c_str(), got_irq, Show(model).c_str(), model_irq),
+                             PathStr(path));
+        u64 h = rig->t.GetMaxSkip(), hr = Ref::Horizon(vis);
+        if (h > hr)
+            res.AddViolation("c15:history:horizon-too-large",
+                             Fmt("after [%s] the timer %s reports a horizon of %llu cycles, but an interrupt is due after %llu", PathShow(path).c_str(), Show(vis).c_str(),
+                                 (unsigned long long)h, (unsigned long long)hr),
+                             PathStr(path));
+        std::vector<u64> ks;
+        for (u64 k = 0; k <= std::min<u64>(h, 6); ++k)
+            ks.push_back(k);
+        if (h != ~0ull && h > 6 && h <= 64)
+            ks.push_back(h);
+        u64 sig = Mix(h);
+        for (u64 k : ks) {
+            auto a = Build(path);
+            irq = 0;
+            a->t.Skip(k);
+            TS sa = Save(a->t);
+            int ia = irq;
+            auto b = Build(path);
+            irq = 0;
+            for (u64 i = 0; i < k; ++i)
+                b->t.Tick();
+            TS sb = Save(b->t);
+            int ib = irq;
+            ++res.evaluations;
+            sig = Fnv(&sa, sizeof(sa), sig);
+            if (!(sa == sb) || ia != 0 || ib != 0)
+                res.AddViolation(std::string("c15:history:skip-vs-ticks:") + (k == 0 ? "k=0" : "k>0"),
+                                 Fmt("after [%s] (%s, reported horizon %llu): Skip(%llu) gives %s with %d interrupt(s), %llu x Tick gives %s with %d interrupt(s)", PathShow(path).c_str(),
+                                     Show(vis).c_str(), (unsigned long long)h, (unsigned long long)k, Show(sa).c_str(), ia, (unsigned long long)k, Show(sb).c_str(), ib),
+                                 PathStr(path));
+        }
+        // behavioural probe for merging: one cycle, one event, one restart
+        for (int probe = 0; probe < 3; ++probe) {
+            auto a = Build(path);
+            irq = 0;
+            try {
+                Apply(a->t, Event{probe == 0 ? EvTick : probe == 1 ? EvEvent : EvRestart, 0});
+            } catch (const Teakra::VerifAssertion&) {
+            }
+            TS sa = Save(a->t);
+            sig = Fnv(&sa, sizeof(sa), sig ^ (u64)irq);
+        }
+        digests.insert(Fnv(&vis, sizeof(vis), sig));
+        return sig;
+    }
+    void Explore(int max_depth, u64 max_nodes) {
+        std::vector<Event> alphabet = {{EvTick, 0}, {EvRestart, 0}, {EvMode, 0}, {EvMode, 1}, {EvMode, 2}, {EvPause, 0}, {EvPause, 1}, {EvMU, 0}, {EvMU, 1},
+                                       {EvStartLow, 1}, {EvStartLow, 2}, {EvStartLow, 4}, {EvSkip, 1}, {EvSkip, 3}};
+        std::unordered_set<u64> seen;
+        TS zero;
+        std::memset(&zero, 0, sizeof(zero));
+        TS v0, m0;
+        u64 s0 = CheckAt({}, zero, v0, m0);
+        nodes.push_back({v0, m0, 0, {EvTick, 0}, 0});
+        seen.insert(Fnv(&v0, sizeof(v0), s0));
+        size_t lo = 0;
+        bool capped = false;
+        while (lo < nodes.size()) {
+            Node n = nodes[lo];
+            int ni = (int)lo++;
+            if (n.depth >= max_depth)
+                continue;
+            for (auto& e : alphabet) {
+                if (e.kind == EvSkip) { // only inside the reported horizon (fast-forwarding further is not promised anything)
+                    auto rig = Build(Path(ni));
+                    if (rig->t.GetMaxSkip() < e.arg)
+                        continue;
+                }
+                const u64 before = res.violation_events;
+                TS vis, model;
+                std::vector<Event> path = Path(ni, &e);
+                // the model follows a fast-forward by its closed form
+                TS pm = n.model;
+                u64 sig;
+                if (e.kind == EvSkip) {
+                    Ref::Advance(pm, e.arg);
+                    std::vector<Event> dummy = path;
+                    // check the state after the skip as a node of its own (model = advanced parent model, no event to apply)
+                    auto rig = Build(path);
+                    vis = Save(rig->t), model = pm;
+                    ++res.transitions, ++res.traces_validated, ++res.evaluations;
+                    if (!(vis == model))
+                        res.AddViolation("c15:history:model:Skip", Fmt("after [%s]: implementation %s, statement model %s", PathShow(path).c_str(), Show(vis).c_str(), Show(model).c_str()), PathStr(path));
+                    TS v2, m2;
+                    sig = CheckTail(path, vis);
+                } else {
+                    sig = CheckAt(path, n.model, vis, model);
+                }
+                if (sig == ~0ull || res.violation_events != before)
+                    continue; // violating or asserting transitions are reported, not expanded
+                if (!seen.insert(Fnv(&vis, sizeof(vis), sig)).second)
+                    continue;
+                if (nodes.size() >= max_nodes) {
+                    capped = true;
+                    continue;
+                }
+                nodes.push_back({vis, model, ni, e, n.depth + 1});
+            }
+        }
+        res.states += nodes.size();
+        res.Extra("L4_history_nodes", nodes.size());
+        res.Extra("L4_history_depth", (u64)max_depth);
+        if (capped)
+            res.exhaustive = false;
+    }
+    // the differential and probe part of CheckAt for a path whose last event was a fast-forward
+    u64 CheckTail(const std::vector<Event>& path, const TS& vis) {
+        TS dummy_v, dummy_m;
+        // re-use CheckAt with an empty "last event": build the whole path as prefix by appending a no-op (Skip(0))
+        std::vector<Event> p = path;
+        p.push_back({EvSkip, 0});
+        TS pm = vis;
+        return CheckAt(p, pm, dummy_v, dummy_m);
+    }
+};
+
 inline int RunReplay(const std::string& r, Result& res) {
+    if (r.rfind("c15h", 0) == 0) {
+        // "c15h k,a k,a ...": the history; re-run the checks along it (model from reset)
+        std::vector<Event> path;
+        const char* p = r.c_str() + 4;
+        int k, used;
+        unsigned long long a;
+        while (std::sscanf(p, " %d,%llu%n", &k, &a, &used) == 2) {
+            path.push_back({k, a});
+            p += used;
+        }
+        HistoryEngine he(res);
+        TS model, vis, m2;
+        std::memset(&model, 0, sizeof(model));
+        for (size_t i = 0; i + 1 < path.size(); ++i) {
+            if (path[i].kind == EvSkip)
+                Ref::Advance(model, path[i].arg);
+            else
+                HistoryEngine::ApplyModel(model, path[i]);
+        }
+        Result scratch;
+        HistoryEngine hs(scratch);
+        if (!path.empty() && path.back().kind == EvSkip) {
+            std::vector<Event> pre(path.begin(), path.end() - 1);
+            Ref::Advance(model, path.back().arg);
+            auto rig = hs.Build(path);
+            TS v = Save(rig->t);
+            if (!(v == model))
+                res.AddViolation("c15:history:model:Skip", "fast-forward differs from the model", r);
+            he.CheckTail(path, v);
+        } else {
+            he.CheckAt(path, model, vis, m2);
+        }
+        for (auto& vi : res.violations)
+            std::printf("  %s\n    %s\n", vi.key.c_str(), vi.text.c_str());
+        return res.violations.empty() ? 0 : 1;
+    }
     {
         unsigned v[16];
         unsigned long long mx;
@@ -489,11 +747,13 @@ inline void Run(const Args& args, Result& res) {
     eng.Explore(init, false, 1000, 30000000ull, "L2_fixpoint");
     PairEngine pe(res);
     pe.Run();
-    res.distinct_nontrivial = eng.outcome_digests.size() + pe.digests.size();
+    HistoryEngine he(res);
+    he.Explore(args.thorough() ? 12 : 9, 400000);
+    res.distinct_nontrivial = eng.outcome_digests.size() + pe.digests.size() + he.digests.size();
     res.bound = Fmt("L1 depth %d over the full alphabet; L2 complete reachable set of the start<=3, "
                     "non-free-running sub-machine; L3 two timers on one CoreTiming: 180 x 180 state pairs x 7 budgets, CoreTiming::Skip vs that many "
-                    "CoreTiming::Tick",
-                    depth);
+                    "CoreTiming::Tick; L4 histories replayed on fresh objects to depth %d (14-event alphabet, nodes merged on public fields + behavioural probe)",
+                    depth, args.thorough() ? 12 : 9);
     res.assumptions = {"time scale (TS) fixed at 0: the model asserts on any other value",
                        "Restart in free-running mode is taken from the implementation (statement silent)",
                        "MMIO path to the timer registers is covered by C12"};
